@@ -106,7 +106,7 @@ func checkC18(c c18Case) (ci caseInfo, err error) {
 	var tmpl *model.Node
 	var binds []Assign
 	if c.Tree != nil {
-		tmpl, binds = templatize(c.Tree, c.Mask)
+		tmpl, binds = templatizeNamed(c.Tree, c.Mask, true)
 	}
 	rec := &msgRecord{name: h.Name, stream: h.Stream, function: h.Function, wait: h.Wait, dir: h.Dir, session: -1, item: tmpl}
 	var msg *ast.DataMessage
@@ -241,7 +241,7 @@ func genC18(t *rapid.T) c18Case {
 	if c.Hdr.Session == -1 {
 		c.Hdr.Session = 5
 	}
-	c.Tree = genTree(t, treeOpts{NoDeep: true, MaxDepth: 4}, newNamer(true, false))
+	c.Tree = genTree(t, treeOpts{NoDeep: true, MaxDepth: 4}, newNamer(false, false))
 	if rapid.IntRange(0, 9).Draw(t, "emptyItem") == 9 {
 		c.Tree = nil
 	}
